@@ -201,7 +201,9 @@ func runScenario(c *lib.Ctx, sc scenario) {
 			e.logOp("%v -> err=%q", a, a.Err)
 		}
 		if hw != nil {
-			if !hw.Arrived(watchdog) {
+			if !hw.Arrived(callWatchdog) {
+				e.gl.ReleaseAll()
+				e.onStall()
 				c.Inconclusive("the Write of snapshot %d did not start within the watchdog", id)
 			}
 			e.logOp("Write of snapshot %d is in flight (parked)", id)
